@@ -1140,6 +1140,7 @@ static void designation(Token **rest, Token *tok, Initializer *init) {
   if (equal(tok, ".") && init->ty->kind == TY_UNION) {
     Member *mem = struct_designator(&tok, tok, init->ty);
     init->mem = mem;
+    init->expr = NULL;
     designation(rest, tok, init->children[mem->idx]);
     return;
   }
